@@ -43,6 +43,8 @@ def jobs(tier):
             J.append(job('C01', alg, n, k, order='asc', groups=g, checks=ck, **kw))
     for g in ([2, 8], [4, 6], [6, 4], [1, 9]):      # multifit with its default ten iterations on 10 items taking two distinct values
         J.append(job('C01', 'multifit', 10, 3, order='desc', groups=g, checks=ck))
+    for it in (2, 4):    # three distinct values: affordable with a few bisection steps only
+        J.append(job('C01', 'multifit', 7, 3, order='desc', groups=[1, 2, 4], iterations=it, checks=ck))
     for alg in EXACT:
         if alg != 'ckk': J.append(job('C01', alg, 7, 4, order='asc', groups=[3, 2, 2], checks=ck))
         J.append(job('C01', alg, 4, 4, order='desc', checks=ck))
